@@ -380,7 +380,7 @@ def run(ctx):
             for cm in ("none", "mix"):
                 depth = 2 if (ctx.thorough or not impl) and cm == "none" else 1
                 if ctx.thorough and not impl:
-                    depth = 2
+                    depth = 3 if (s == "burgers4" and cm == "none") else 2
                 cfg.append((i, s, cm, depth))
     cfg.sort(key=lambda c: (not space.is_implicit(space.integrators()[c[0]]), -c[3], c))
     ctx.pmap("histories", shard, cfg)
@@ -388,7 +388,7 @@ def run(ctx):
 
 def replay(case):
     depth = max(1, len(case.get("history", [])) - 1)
-    depth = min(depth, 2)
+    depth = min(depth, 3)
     v = explore(case["integrator"], case["system"], case["ctor_mon"], depth)
     rule = case.get("rule")
     hit = [(s, w) for s, w, c in v if c.get("history") == case.get("history") and c.get("rule") == rule]
